@@ -86,3 +86,86 @@ def run_case_prune(job):
     case["poutcome"] = po
     case["poclass"] = oclass(po)
     return case
+
+
+REVERSIBLE = ("pipe", "heat_exchanger")       # elements without an orientation of their own (plus junction-junction valves)
+
+
+def related_net(an, kind, rnd):
+    """a second description of the same physical system + the relation (for the relational C06 / C09 clauses).
+    kind 'iso': injective relabelling of every table and shuffled row order; kind 'rev': a subset of the
+    orientation-free branches has from/to swapped."""
+    import copy
+    bn = copy.deepcopy(an)
+    jmap = {j["lab"]: j["lab"] for j in an["J"]}
+    emap = {(e["tbl"], e["lab"]): e["lab"] for e in an["E"]}
+    rev = []
+    if kind == "iso":
+        pool = [3, 17, 48, 49, 50, 51, 99999, 100000, 100001, 7, 64, 2000001]
+        labs = rnd.sample(pool, len(an["J"]))
+        jmap = {j["lab"]: labs[i] for i, j in enumerate(an["J"])}
+        for t in {e["tbl"] for e in an["E"]}:
+            rows = [e for e in an["E"] if e["tbl"] == t]
+            nl = rnd.sample([5, 1, 9, 30, 2, 11, 4, 70], len(rows))
+            for e, l in zip(rows, nl):
+                emap[(t, e["lab"])] = l
+        for e in bn["E"]:
+            old = (e["tbl"], e["lab"])
+            e["a"] = jmap[e["a"]]
+            if e["tbl"] == "valve" and e["et"] == "pi":
+                e["b"] = emap[("pipe", e["b"])]
+            else:
+                e["b"] = jmap[e["b"]]
+            if e["tbl"] == "press_control":
+                e["cj"] = jmap[e["cj"]]
+            e["lab"] = emap[old]
+        for j in bn["J"]:
+            j["lab"] = jmap[j["lab"]]
+        for n in bn["N"]:
+            n["j"] = jmap[n["j"]]
+        rnd.shuffle(bn["J"])
+        rnd.shuffle(bn["E"])
+        rnd.shuffle(bn["N"])
+    else:
+        pv_pipes = {e["b"] for e in an["E"] if e["tbl"] == "valve" and e["et"] == "pi"}
+        for e in bn["E"]:
+            ok = e["tbl"] in REVERSIBLE or (e["tbl"] == "valve" and e["et"] == "ju")
+            if ok and rnd.random() < 0.6:
+                e["a"], e["b"] = e["b"], e["a"]
+                rev.append([e["tbl"], e["lab"]])
+    rel = {"jmap": [[k, v] for k, v in jmap.items()], "emap": [[k[0], k[1], v] for k, v in emap.items()], "rev": rev}
+    return bn, rel
+
+
+def params_for(an, rel, base_params):
+    """parameters of the related net: the same values for corresponding rows"""
+    em = {(t, l): v for t, l, v in rel["emap"]}
+    out = {}
+    for k, v in (base_params or {}).items():
+        if isinstance(k, tuple):
+            out[(k[0], em.get((k[0], k[1]), k[1]))] = v
+        else:
+            out[k] = v           # global parameters (start values)
+    return out
+
+
+def run_case_related(job):
+    """run a net and a related description of the same system; both projections go to the trace"""
+    import random
+    case = run_case(job)
+    if "skip" in case:
+        return case
+    case["oclass"] = oclass(case["outcome"])
+    rnd = random.Random(job.get("rseed", 0))
+    bn, rel = related_net(job["an"], job["relkind"], rnd)
+    p2 = params_for(job["an"], rel, job.get("params"))
+    # node-element parameters are keyed by their own labels (unchanged)
+    try:
+        rnet = netio.build(bn, fluid=job.get("fluid", "water"), params=p2)
+    except Exception as e:  # noqa
+        return {"id": job["id"], "skip": "build2:%s" % type(e).__name__}
+    ro = run_pipeflow(rnet, dict(job.get("opts") or {}))
+    case["rnet"] = netio.project(rnet)
+    case["routcome"] = ro
+    case["rel"] = rel
+    return case
